@@ -712,6 +712,11 @@ func (s *SecureChannel) open(ctx context.Context, instance *channelInstance, req
 	defer func() {
 		if s.openingInstance == nil || s.openingInstance.state != channelActive {
 			debug.Printf("uasc %d: failed to open a new secure channel", s.c.ID())
+			// a failed renewal has used sequence numbers of the stream the
+			// active instance continues: do not hand them out again
+			if requestType == ua.SecurityTokenRequestTypeRenew && s.openingInstance != nil {
+				instance.sequenceNumber = s.openingInstance.sequenceNumber
+			}
 		}
 		s.setOpeningInstance(nil)
 	}()
